@@ -13,3 +13,4 @@ for id in "$@"; do
   echo "== $id rc=$rc"; echo "$out" | grep -E "VIOLATION|INCONCLUSIVE|cases," | head -5
   echo "$out" | grep -A12 "VIOLATION" | head -${SHOW:-14}
 done
+git -C /verif checkout -- evidence 2>/dev/null
